@@ -88,8 +88,14 @@ def addedOf (a w : Mem) : String :=
   | d0 :: rest => if offOk && rest.all (fun x => match x, d0 with | some u, some v => u == v | none, none => true | _, _ => false)
       then showX d0 else "?"
 
+/-- stand-in for `clamp_min(0).sqrt()` on a 1×1 member, in the packed LDLᵀ format (`L·sqrt(D)` = the factor) -/
+def sqrtClamp1 (a : Mem) : Fac :=
+  (#[#[match getE a 0 0 with | none => none | some v => some (if v < 0 then 0 else v)]], false)
+
 def runLine (line : String) : String :=
-  match words line with
+  let ws := words line
+  let isOp := ws.head? == some "op"
+  match (if isOp then ws.drop 1 else ws) with
   | [j, mt, dt, sj, sm, tr, up, ou, ms] =>
     match optRat? j, optNat? mt, optRat? sj, optNat? sm, (ms.splitOn "|").mapM parseMem? with
     | some j, some mt, some sj, some sm, some mems =>
@@ -97,7 +103,9 @@ def runLine (line : String) : String :=
       let env : Env Rat := { settingsJitter := sj.getD dflt, settingsMaxTries := sm.getD LinOp.Generated.C16.maxTries,
                              traceMode := tr = "1" }
       let args : Args Rat := { upper := up = "1", out := ou = "1", jitter := j, maxTries := mt }
-      let o : Outcome Mem Fac Rat := psdSafeCholesky ops consts env args mems
+      let size := match mems with | [] => 0 | m :: _ => m.size
+      let o : Outcome Mem Fac Rat :=
+        if isOp then opCholesky ops sqrtClamp1 size consts env args.upper mems else psdSafeCholesky ops consts env args mems
       let key := fun (f : Fac) => (showMem f.1, f.2)
       let err := match o.result with
         | .ok _ => "ok" | .error .nanError => "nan" | .error .notPSDError => "notpsd" | .error .unboundLocalError => "unbound"
